@@ -1001,6 +1001,18 @@ func (e *Engine) callContract(c *Contract, fn *types.Func, recvName string, recv
 			}
 		}
 	}
+	// ghost call counters of the receiver (attr counts = name, ...): they only grow; the contract says by how much
+	if cs := c.Attrs["counts"]; cs != "" && recv != nil {
+		if rt, ok := recv.(VTerm); ok {
+			for _, cn := range strings.Split(cs, ",") {
+				key := "gcnt:" + strings.TrimSpace(cn) + ":" + rt.T.String()
+				old := st.getMem(key, mkApp("gcnt0_"+strings.TrimSpace(cn), SInt, rt.T))
+				n := e.fresh("gcnt", SInt)
+				st.assume(mkCmp("<=", old, n))
+				st.mem[key] = n
+			}
+		}
+	}
 	// the callee may allocate
 	e.advanceAlloc(st)
 	// ensures
